@@ -206,7 +206,7 @@ def _profile() -> gg.Profile:
 
 @st.composite
 def pure_cases(draw):
-    r = draw(st.randoms(use_true_random=False))
+    r = core.rng(draw)
     cfg = {"mode": r.choice(["strict", "lax"]), "extra": True, "twice": False}
     main = gg.Gen(r, _profile()).template()
     data = gd.DataGen(r).data()
@@ -219,7 +219,7 @@ def pure_cases(draw):
 
 @st.composite
 def histories(draw, isolation="caches"):
-    r = draw(st.randoms(use_true_random=False))
+    r = core.rng(draw)
     steps = []
     t = r.randrange(len(HIST_TEMPLATES))
     for _ in range(r.randint(2, 8)):
